@@ -30,6 +30,33 @@ def h_exact(ctx, n, rho, r0, dr, nswp, choices):
     ctx.canary('canary', ctx.all_eq(ref_full(Y), ref_full(T) * 2))
 
 
+def h_exact_interrupted(ctx, n, rho, how, after):
+    """Fixed-rank start at rho, run interrupted after `after` oracle batches (by
+    the evaluation budget or by the objective returning None), at least one
+    complete forward half-sweep: the returned tensor equals the target already."""
+    d = len(n)
+    T = ctx.tt('t', n, rho)
+    Y0 = simple_Y0(n, rho)
+    ref = Oracle(ctx, target=T)
+    with stubs_installed(ctx, 'first'):
+        teneva.cross(ref, Y0, nswp=2, dr_min=0, dr_max=0, info={})
+    sizes = [len(B) for B in ref.batches]
+    info = {}
+    if how == 'm':
+        orc = Oracle(ctx, target=T)
+        kw = {'m': sum(sizes[:after])}
+    else:
+        orc = Oracle(ctx, target=T, none_at=ctx.const(after + 1) if is_sym(ctx) else after + 1)
+        kw = {}
+    with stubs_installed(ctx, 'first'):
+        Y = teneva.cross(orc, Y0, nswp=2, dr_min=0, dr_max=0, info=info, **kw)
+    ctx.claim('interrupted_where_intended', info['stop'] == ('m' if how == 'm' else 'func') and
+              len(orc.batches) == (after if how == 'm' else after + 1))
+    ctx.claim('well_formed_same_shape', well_formed(Y, n))
+    ctx.claim('reproduces_target', ctx.all_eq(ref_full(Y), ref_full(T)))
+    ctx.claim('info_r_is_erank_of_result', ctx.eq(info['r'], teneva.erank(Y)))
+
+
 def _maxrank(n, k):
     left = int(np.prod(n[:k + 1]))
     right = int(np.prod(n[k + 1:]))
@@ -71,8 +98,9 @@ def h_info(ctx, n, rho):
     T = ctx.tt('t', n, rho)
     orc = Oracle(ctx, target=T)
     Y0 = simple_Y0(n, rho)
-    I_vld = np.array(multi_indices(n)[:2])
-    y_vld = vec(ctx, 'v', 2)
+    mi = multi_indices(n)
+    I_vld = np.array([mi[0], mi[1], mi[0]])          # (a validation index measured twice, different values)
+    y_vld = vec(ctx, 'v', 3)
     ctx.assume(ctx.gt(y_vld[0], 0))
     info = {}
     olds = []
@@ -133,6 +161,11 @@ def instances(tier):
     out.append({'func': 'h_exact', 'params': {'n': [3, 3], 'rho': 2, 'r0': 2, 'dr': [2, 2], 'nswp': 1, 'choices': 'first'}, 'opts': G})
     if not quick:
         out.append({'func': 'h_exact', 'params': {'n': [3, 2, 3], 'rho': 2, 'r0': 2, 'dr': [2, 3], 'nswp': 1, 'choices': 'first'}, 'opts': G})
+    # interruptions after the forward half-sweep (d batches), in the middle and at the end of the backward one
+    for n, rho in [([2, 2], 1), ([2, 2, 2], 1), ([3, 3], 2)]:
+        for how in ('m', 'func'):
+            for after in range(len(n), 2 * len(n) + 1):
+                out.append({'func': 'h_exact_interrupted', 'params': {'n': n, 'rho': rho, 'how': how, 'after': after}, 'opts': G})
     out.append({'func': 'h_info', 'params': {'n': [2, 2], 'rho': 1}, 'opts': G})
     for which in ('e_vld_on_interrupt', 'cache_with_budget'):
         out.append({'func': 'h_interrupted_info', 'params': {'which': which}, 'opts': G})
